@@ -505,6 +505,23 @@ def _keep(run, P):
     run.ob("C06.keep", f, loop, g.exit not in after,
            construct=f"{out}.append({cur}) after the loop on every path to a return",
            why="the last child would be lost")
+    # the loops over the work-list end only when it is empty
+    from .util import path_conditions
+    wl_loops = [n_ for n_ in ast.walk(f.node) if isinstance(n_, (ast.While, ast.For))
+                and any(isinstance(y, ast.Call) and isinstance(y.func, ast.Attribute)
+                        and y.func.attr in ("popleft", "pop") and dotted(y.func.value) == q
+                        for b in n_.body for y in ast.walk(b))]
+    for lp_ in wl_loops:
+        for x in _own_loop_exits(lp_):
+            if isinstance(x, ast.Break):
+                ok_ = False
+            else:
+                conds = path_conditions(f.node, x)
+                ok_ = (q, False) in conds or (f"len({q})", False) in conds \
+                    or (f"len({q}) == 0", True) in conds
+            run.ob("C06.keep", f, x, ok_,
+                   construct=f"{norm(x, 40)} leaves the loop over '{q}' only when it is empty",
+                   why="children still in the work-list are dropped from the simplified program")
     # output grows by append only
     for x in ast.walk(f.node):
         if isinstance(x, ast.Call) and isinstance(x.func, ast.Attribute) \
@@ -512,6 +529,44 @@ def _keep(run, P):
                 and x.func.attr in ("insert", "extend", "appendleft", "reverse", "sort"):
             run.ob("C06.keep", f, x, False,
                    why="the output list must be built in traversal order by append")
+
+
+def _own_loop_exits(loop):
+    """break statements that end *loop* and return statements inside it."""
+    out = []
+
+    def visit(node, inner):
+        for c in ast.iter_child_nodes(node):
+            if isinstance(c, (ast.FunctionDef, ast.AsyncFunctionDef, ast.Lambda, ast.ClassDef)):
+                continue
+            if isinstance(c, ast.Break) and not inner:
+                out.append(c)
+            elif isinstance(c, ast.Return):
+                out.append(c)
+            if isinstance(c, (ast.For, ast.While)):
+                for b in c.body:
+                    visit_stmt(b, True)
+                for b in c.orelse:
+                    visit_stmt(b, inner)
+            else:
+                visit(c, inner)
+
+    def visit_stmt(st, inner):
+        if isinstance(st, ast.Break) and not inner:
+            out.append(st)
+        elif isinstance(st, ast.Return):
+            out.append(st)
+        if isinstance(st, (ast.For, ast.While)):
+            for b in st.body:
+                visit_stmt(b, True)
+            for b in st.orelse:
+                visit_stmt(b, inner)
+        elif not isinstance(st, (ast.FunctionDef, ast.AsyncFunctionDef, ast.ClassDef)):
+            visit(st, inner)
+
+    for b in loop.body:
+        visit_stmt(b, False)
+    return out
 
 
 # {{{ IfThenElse rules
@@ -871,7 +926,12 @@ def _flat(run, P):
         ok = False
         if ext:
             env = ext[0][1]
-            ok = has("V_r.append(V_v)", lp, env) \
+            from .util import path_conditions as _pc
+            exits = _own_loop_exits(lp)
+            skips = [x for x in ast.walk(lp) if isinstance(x, ast.Continue)]
+            skips_ok = all(any(v_ and "NullASTNode" in t_ and t_.startswith("isinstance(")
+                               for t_, v_ in _pc(fb.node, x)) for x in skips)
+            ok = has("V_r.append(V_v)", lp, env) and not exits and skips_ok \
                 and not any(isinstance(x, ast.Call) and isinstance(x.func, ast.Attribute)
                             and x.func.attr in ("insert", "appendleft", "extendleft")
                             for x in ast.walk(lp)) \
